@@ -715,6 +715,34 @@ func (s *DB) getHistoricRootsAndNodes(
 			}
 		}
 	}
+	// Nodes are content-addressed: a node that a doomed version does not
+	// share with its child can still belong to another version that is
+	// kept, e.g. after the table returned to earlier contents. Never
+	// delete anything the open tree or a kept version refers to.
+	keep := func(removed bool, link interface{}) (bool, error) {
+		if ls, ok := link.(string); ok && !removed {
+			delete(candidateBlocks, ls)
+		}
+		return len(candidateBlocks) > 0, nil
+	}
+	if len(candidateBlocks) > 0 {
+		err = s.crdt.Mast.DiffLinks(ctx, nil, keep)
+		if err != nil {
+			return nil, nil, fmt.Errorf("list nodes in use: %w", err)
+		}
+	}
+	for keptName, keptRoot := range rootCacheByName {
+		if _, doomed := candidateRoots[keptName]; doomed || len(candidateBlocks) == 0 {
+			continue
+		}
+		kept, err := crdt.Load(ctx, s.crdt.Config, &keptName, *keptRoot)
+		if err == nil {
+			err = kept.Mast.DiffLinks(ctx, nil, keep)
+		}
+		if err != nil && logFunc != nil {
+			logFunc(fmt.Sprintf("error listing nodes of %s: %v\n", keptName, err))
+		}
+	}
 	nodes = make([]string, 0, len(candidateBlocks))
 	for k := range candidateBlocks {
 		nodes = append(nodes, k)
